@@ -4,10 +4,10 @@ use crate::util::Witness;
 use sea_query::*;
 
 #[derive(Clone, Copy, Debug)]
-enum Op { Columns(usize), Values(usize), SelectFrom(usize), Default, ValuesFrom(usize, usize) }
+enum Op { Columns(usize), Values(usize), SelectFrom(usize), SelectStar(usize), Default, ValuesFrom(usize, usize) }
 
 fn label(h: &[Op]) -> String {
-    h.iter().map(|o| match o { Op::Columns(k) => format!("columns({k})"), Op::Values(k) => format!("values({k})"), Op::SelectFrom(k) => format!("select_from({k})"), Op::Default => "or_default_values()".into(), Op::ValuesFrom(x, y) => format!("values_from_panic({x},{y})") }).collect::<Vec<_>>().join(";")
+    h.iter().map(|o| match o { Op::Columns(k) => format!("columns({k})"), Op::Values(k) => format!("values({k})"), Op::SelectFrom(k) => format!("select_from({k})"), Op::SelectStar(k) => format!("select_from(* + {} more)", k.saturating_sub(1)), Op::Default => "or_default_values()".into(), Op::ValuesFrom(x, y) => format!("values_from_panic({x},{y})") }).collect::<Vec<_>>().join(";")
 }
 fn cols(k: usize) -> Vec<Alias> { (0..k).map(|i| Alias::new(["a", "b", "c"][i])).collect() }
 fn row(k: usize, base: i32) -> Vec<SimpleExpr> { (0..k).map(|i| Expr::val(base * 10 + i as i32).into()) .collect() }
@@ -33,8 +33,11 @@ fn check(h: &[Op]) -> Option<Witness> {
                     Ok(()) => { if k > 0 { rows.push(i + 1); select = None; } }
                 }
             }
-            Op::SelectFrom(k) => {
-                let mut q = Query::select(); for c in cols(k) { q.column(c); } q.from(Alias::new("u"));
+            Op::SelectFrom(k) | Op::SelectStar(k) => {
+                // a select list of k expressions; SelectStar: the first of them is `*` / `u.*` (still ONE expression of the list)
+                let mut q = Query::select();
+                if let Op::SelectStar(_) = *op { if k > 0 { if k % 2 == 1 { q.column(Asterisk); } else { q.column((Alias::new("u"), Asterisk)); } for c in cols(k - 1) { q.column(c); } } } else { for c in cols(k) { q.column(c); } }
+                q.from(Alias::new("u"));
                 let r = s.select_from(q).map(|_| ());
                 if let Err(e) = &r { if *e != (error::Error::ColValNumMismatch { col_len: ncols, val_len: k }) { return w(format!("call {i}: select_from({k}) with {ncols} columns: error {e:?}"), "ColValNumMismatch with both counts"); } }
                 if (k == ncols) != r.is_ok() { return w(format!("call {i}: select_from({k}) with {ncols} columns returned {r:?}"), "Ok iff the counts match"); }
@@ -59,6 +62,7 @@ fn check(h: &[Op]) -> Option<Witness> {
     let sql = s.to_string(PostgresQueryBuilder);
     if let Some(pos) = sql.find(" VALUES ") {
         let declared = sql[..pos].rfind('(').map(|o| sql[o..pos].matches('"').count() / 2).unwrap_or(0);
+        if !sql[pos + 8..].starts_with('(') { return w(format!("{sql}"), "VALUES is followed by at least one row `( .. )` (a statement without rows has no VALUES clause, or the DEFAULT VALUES form)"); }
         let tuples: Vec<&str> = sql[pos + 8..].split("), (").collect();
         let mut firsts = vec![];
         for t in &tuples {
@@ -79,6 +83,7 @@ pub fn search(_obl: &str) -> Vec<Witness> {
     for k in 0..3 { ops.push(Op::Columns(k)); }
     for k in 0..4 { ops.push(Op::Values(k)); }
     for k in 0..3 { ops.push(Op::SelectFrom(k)); }
+    for k in 1..3 { ops.push(Op::SelectStar(k)); }
     for (x, y) in [(1, 1), (2, 2), (2, 1), (2, 3), (1, 2)] { ops.push(Op::ValuesFrom(x, y)); }
     let mut found: Vec<Witness> = vec![];
     let mut per_kind: std::collections::HashMap<String, usize> = Default::default();
@@ -104,7 +109,7 @@ pub fn check_one(label_: &str) -> Option<Witness> {
     let h: Vec<Op> = label_.split(';').filter_map(|t| {
         let k: usize = t.trim_end_matches(')').split('(').nth(1).and_then(|x| x.parse().ok()).unwrap_or(0);
         if t.starts_with("values_from_panic") { let v: Vec<usize> = t.trim_end_matches(')').split('(').nth(1).unwrap_or("").split(',').filter_map(|x| x.parse().ok()).collect(); Some(Op::ValuesFrom(*v.first().unwrap_or(&0), *v.get(1).unwrap_or(&0))) }
-        else if t.starts_with("columns") { Some(Op::Columns(k)) } else if t.starts_with("values") { Some(Op::Values(k)) } else if t.starts_with("select_from") { Some(Op::SelectFrom(k)) } else if t.starts_with("or_default") { Some(Op::Default) } else { None }
+        else if t.starts_with("columns") { Some(Op::Columns(k)) } else if t.starts_with("values") { Some(Op::Values(k)) } else if t.starts_with("select_from(*") { Some(Op::SelectStar(t.trim_end_matches(" more)").rsplit(' ').next().and_then(|x| x.parse::<usize>().ok()).unwrap_or(0) + 1)) } else if t.starts_with("select_from") { Some(Op::SelectFrom(k)) } else if t.starts_with("or_default") { Some(Op::Default) } else { None }
     }).collect();
     check(&h)
 }
